@@ -39,8 +39,19 @@ def main():
         rc = ctx.finish()
     except core.Broken as ex:
         core.log("[broken] %s: %s" % (prop, ex))
-        print("CHECK-BROKEN property=%s (exit 2, no verdict): %s" % (prop, str(ex).splitlines()[0] if str(ex) else ""))
-        rc = 2
+        if ctx.has_unlisted_violations():
+            # disagreements between the real code and the specification were already observed and
+            # reproduced: they stand, whatever a later control, vacuity guard or sub-check could not do
+            # (such guards are computed on the tree under test and may themselves trip over the change)
+            ctx.notes.append("a later guard could not be evaluated: %s" % (str(ex).splitlines()[0] if str(ex) else ""))
+            try:
+                rc = ctx.finish()
+            except Exception:
+                traceback.print_exc()
+                rc = 2
+        else:
+            print("CHECK-BROKEN property=%s (exit 2, no verdict): %s" % (prop, str(ex).splitlines()[0] if str(ex) else ""))
+            rc = 2
     except Exception:
         traceback.print_exc()
         print("CHECK-BROKEN property=%s (exit 2, no verdict): internal error" % prop)
